@@ -314,7 +314,7 @@ func run(t vlib.TB, test string, sc scenario, thruAttrs slog.Attrs, args []any) 
 			vlib.Discrep(t, "C06/layout-attrs", "C06 %s: attribute region %q is not key=value pairs: %v", desc, clip(region, 300), err)
 			return
 		}
-		if err := vlib.MatchLogfmtAttrs(pairs, vlib.Normalize(sc.Attrs), false); err != nil {
+		if err := vlib.MatchLogfmtAttrsOrdered(pairs, vlib.Normalize(sc.Attrs), false); err != nil {
 			vlib.Discrep(t, "C06/layout-attrs", "C06 %s: %v; attribute region %q", desc, err, clip(region, 300))
 			return
 		}
